@@ -10,22 +10,27 @@ Theorem C08_keys_spec : forall zab de erk ho,
   session_key zab (transcript_bytes de erk ho) true = iso_sk_reader zab (iso_session_transcript de erk ho) /\
   session_key zab (transcript_bytes de erk ho) false = iso_sk_device zab (iso_session_transcript de erk ho).
 Proof. exact keys_spec. Qed.
+Print Assumptions C08_keys_spec.
 
 Theorem C08_ble_spec : forall ek, ble_ident ek = iso_ble_ident (encode (CTag 24 (CBytes ek))).
 Proof. exact ble_spec. Qed.
+Print Assumptions C08_ble_spec.
 
 Theorem C08_lengths : forall zab tb r ek, blen (session_key zab tb r) = 32 /\ blen (ble_ident ek) = 16.
 Proof. exact key_lengths. Qed.
+Print Assumptions C08_lengths.
 
 (* the transcript encoding is injective in (engagement bytes, reader-key bytes, handover) *)
 Theorem C08_transcript_injective : forall de erk ho de' erk' ho',
   bytes_ok de -> bytes_ok erk -> cbor_ok ho -> bytes_ok de' -> bytes_ok erk' -> cbor_ok ho' ->
   transcript_bytes de erk ho = transcript_bytes de' erk' ho' -> de = de' /\ erk = erk' /\ ho = ho'.
 Proof. exact transcript_injective. Qed.
+Print Assumptions C08_transcript_injective.
 
 Theorem C08_both_roles_equal : forall zab zab' tb tb' r,
   zab = zab' -> tb = tb' -> session_key zab tb r = session_key zab' tb' r.
 Proof. exact both_roles_equal. Qed.
+Print Assumptions C08_both_roles_equal.
 
 (* a peer key that is not a valid P-256 point is refused rather than used, and never panics:
    for every COSE key, every point-validity oracle and every ECDH oracle *)
@@ -34,11 +39,13 @@ Theorem C08_bad_key_refused : forall (valid : bytes -> bool) (dh : bytes -> byte
   (well_shaped_b k = false -> shared_secret valid dh k = KErr) /\
   (forall pt, encoded_point k = KOk pt -> valid pt = false -> shared_secret valid dh k = KErr).
 Proof. exact bad_key_refused. Qed.
+Print Assumptions C08_bad_key_refused.
 
 Theorem C08_good_key_used : forall valid dh k, well_shaped k ->
   exists pt, encoded_point k = KOk pt /\
     shared_secret valid dh k = if valid pt then KOk (dh pt) else KErr.
 Proof. exact shared_secret_well_shaped. Qed.
+Print Assumptions C08_good_key_used.
 
 (* RFC 5869 test case 1 through the same HKDF the model uses, as a sanity anchor *)
 Example C08_ex_labels : hkdf_info_sk_reader = bytes_of_string "SKReader"%string /\ hkdf_info_sk_device = bytes_of_string "SKDevice"%string
